@@ -6,6 +6,8 @@ import (
 	"flag"
 	"fmt"
 	"os"
+	"strconv"
+	"strings"
 
 	_ "verif/harness/checks"
 	"verif/harness/vc"
@@ -22,13 +24,34 @@ func main() {
 	out := flag.String("out", "", "partial result file")
 	info := flag.Bool("info", false, "print check metadata as JSON")
 	replica := flag.String("replica", "", "re-execute a recorded history (file) and write the outcomes to -out")
-	mode := flag.String("mode", "fresh", "replica mode: fresh|restart|twice")
+	mode := flag.String("mode", "fresh", "replica mode: fresh|restart|twice|kill")
+	dbdir := flag.String("dbdir", "", "kill mode: goleveldb directory that survives the process")
+	killat := flag.String("killat", "", "kill mode: crash point height:phase:delay_us (empty: run to the end)")
 	flag.Parse()
 	if *replica != "" {
 		rec, err := world.LoadRecording(*replica)
 		if err != nil {
 			fmt.Fprintln(os.Stderr, "replica:", err)
 			os.Exit(3)
+		}
+		if *mode == "kill" {
+			var kp *world.KillPoint
+			if *killat != "" {
+				kp = &world.KillPoint{}
+				parts := strings.Split(*killat, ":")
+				if len(parts) != 3 {
+					fmt.Fprintln(os.Stderr, "replica: bad -killat")
+					os.Exit(3)
+				}
+				kp.Height, _ = strconv.ParseInt(parts[0], 10, 64)
+				kp.Phase = parts[1]
+				kp.DelayUS, _ = strconv.Atoi(parts[2])
+			}
+			if err := world.ReplayKill(rec, *dbdir, *out, kp); err != nil {
+				fmt.Fprintln(os.Stderr, "replica:", err)
+				os.Exit(3)
+			}
+			return
 		}
 		outs, err := world.Replay(rec, *mode)
 		if err != nil {
